@@ -12,7 +12,7 @@ Only changes for which all four hold are kept (patch.diff, demo.rs, meta.json).
 """
 import json, os, re, shutil, subprocess, sys, glob
 
-WT = "/tmp/confirm_wt"
+WT = os.environ.get("CONFIRM_WT", "/tmp/confirm_wt")
 ENV = dict(os.environ, CARGO_NET_OFFLINE="true")
 ENV.pop("RUST_BACKTRACE", None)
 
